@@ -8,6 +8,7 @@ CONSTANTS
   VftTypes = {1, 2}
   FnKinds = {"param", "ret", "vparam", "vret"}
   FnOwners = {1}
+  Twins = {"none"}
   TwoModules = FALSE
   Ptrs = {4, 8}
 INVARIANTS Inv_Passes Replay
